@@ -144,6 +144,8 @@ class LoopGen:
                           'var-outer'])
         if hostile == 'unroll_cycle':
             shape = 'flat'
+        if hostile == 'unroll_neg_step':
+            shape = r.choice(['flat', 'flat', 'nested-var-inner', 'var-outer'])
         ia, = r.sample(['ia', 'ib', 'ie'], 1)
         ic = r.choice(['ic', 'id'])
         L, facts, tags = [], {'kind': 'unroll', 'shape': shape}, {'unroll', 'unroll-' + shape}
@@ -237,7 +239,7 @@ class LoopGen:
         L, tags = [], {'fusion', 'fusion-collapse2' if col else 'fusion-1d'}
         grp = f' group({group})' if group else ''
         v1 = self.lv('i')
-        v2 = v1 if r.random() < 0.5 else self.lv('i')
+        v2 = v1 if r.random() < 0.5 and hostile != 'loopvar_after' else self.lv('i')
         facts = {'kind': 'fusion', 'group': group or 'default', 'writes': [a, b]}
         if not col:
             ranges = r.choice([('1, n', '1, n'), ('1, n', '2, n'), ('1, n', '1, n-1'), ('2, n', '1, n'),
